@@ -372,6 +372,17 @@ def renderRows (sh : Nat → String) (a : Acq) : Table :=
   (List.range a.samples.length).map (fun i =>
     a.samples.getD i "" :: "<Identifier>" :: cells.map (fun x => a.value i x.1 x.2.1 x.2.2) ++ ["\n"])
 
+/-- `delimiter.join(fields)` on characters -/
+def joinC (d : Char) : List (List Char) → List Char
+  | [] => []
+  | [f] => f
+  | f :: t => f ++ d :: joinC d t
+
+def joinLine (d : Char) (r : Row) : String := String.ofList (joinC d (r.map String.toList))
+
+/-- the text of a table, line by line (what the export file holds once decoded) -/
+def renderText (d : Char) (t : Table) : List String := t.map (joinLine d)
+
 /-! ## specification -/
 
 /-- pixel [sample, scan] of every element = the exported value of channel `c`; elements in their
